@@ -251,6 +251,11 @@ VALID_PYTHON = [
 # the transpiler may accept (emit the expression) or reject with ValueError, never crash with another exception
 CONFUSED = ["1 << 1.0", "3 & 1.5", "-'250'", "1 < 'a'", "max(1, 'a')", "[250]", "(100, 150)", "'a' * 'b'", "1 % 'x'", "abs('x')", "len(5)", "int('x')", "1 / 0", "5 % 0",
             "2 ** 0.5 ** 'a'", "not [] + 1", "'a' + 1", "min()", "float('nan') < ''", "1 if 'a' < 1 else 2", "~1.5", "+'x'", "-[1]", "10 ** 400 * 1.0", "str(1) - 1", "bool([]) + ''"]
+# values put into EVERY parameter of every constructor / method / Core helper (one at a time, the others take ordinary values)
+ARG_HOSTILE = ["1e999", "-1e999", "1e308 * 10", "1e999 - 1e999", "float('inf')", "float('nan')", "[1e999]", "[1, float('inf')]", "max(1e999, 1)", "int(1e999)", "1e999 > 3",
+               "[0.0, 1, 2, 3, 4, 5, 6, 7]", "[8 / 2, 1, 1, 1, 1, 1, 1, 1]", "[1.5]", "8 / 2",
+               "'x'", "[1]", "None", "-1", "10 ** 30", "-(10 ** 30)", "1 / 0", "True", "2.5", "-2.5", "()", "{}", "0", "''", "(1, 2)", "[[1]]", "['a']", "0.0001", "2 ** 0.5",
+               "'a' * 3", "not 1", "1 < 2 < 3", "f'{1}'", "[True, 2.0]", "7 // 2.0", "1e3", "0x1F", "-0.0"]
 KNOWN_SLOW = [("x = 9**9**9\n", "eval:pow-bomb"), ("x = 1 << (10**9)\n", "eval:shift-bomb"), ("x = " + "+".join(["1"] * 3000) + "\n", "eval:deep-recursion")]
 
 
@@ -298,6 +303,19 @@ def run(ctx: Ctx) -> int:
             for wrap in ("while True:\n", "if True:\n", "def fn():\n", "for i in range(2):\n"):
                 if rng.random() < (1.0 if ctx.tier == "thorough" else 0.15):
                     inputs.append(("confused-literal", scripts_pool.HEADER + wrap + "".join("    " + l + "\n" for l in pos.replace("{h}", h).splitlines()), None))
+    import bindprobe
+    for cls, meth, params in bindprobe.callables():
+        for p_ in params:
+            hs = ARG_HOSTILE if ctx.tier == "thorough" or ctx.broken else ARG_HOSTILE[:15] + rng.sample(ARG_HOSTILE[15:], 6)
+            for h in hs:
+                vals = {q[0]: bindprobe.values_for(cls, meth, q[0])[0] for q in params}
+                vals[p_[0]] = h
+                shape = (tuple(q[0] for q in params), len([q for q in params if q[1] == "pos"]), tuple(q[0] for q in params if q[1] != "pos"))
+                src = bindprobe.call_text(cls, meth, params, shape, vals)
+                inputs.append(("argument", src, None))
+                if rng.random() < (1.0 if ctx.tier == "thorough" else 0.2):
+                    ls = src.splitlines()
+                    inputs.append(("argument", "\n".join(ls[:-1]) + "\nwhile True:\n    " + ls[-1] + "\n", None))
     for nm in ("len", "abs", "max", "min", "int", "float", "bool", "str", "range", "sleep", "print", "HIGH", "OUTPUT"):
         inputs.append(("shadowing", scripts_pool.HEADER + f"def {nm}(a, b):\n    return a + b\nx = {nm}(1, 2)\nsleep(max(100, 250))\n", None))
         inputs.append(("shadowing", scripts_pool.HEADER + f"{nm} = 5\ny = {nm} + 1\nsleep(abs(-20))\n", None))
